@@ -1,6 +1,8 @@
 package main
 
 import (
+	"encoding/json"
+	"os/exec"
 	"go/constant"
 	"math/big"
 	"regexp"
@@ -36,6 +38,7 @@ type Engine struct {
 	typeByString map[string]types.Type
 	tables   map[string]*Term
 	writtenGlobals map[*ssa.Global]bool
+	dumped   map[string][]int64
 	tableVals map[string][]int64
 	maxDepth int
 	genSrc   map[string]string
@@ -246,8 +249,160 @@ func (e *Engine) constTable(g *ssa.Global) *Term {
 		return t
 	}
 	t := e.literalTable(g)
+	if t == nil {
+		t = e.dumpedTable(g)
+	}
 	e.tables[k] = t
 	return t
+}
+
+// dumpedTable: tables computed by the package initialiser (lookupPos, lookupIJ) are read from the running
+// program once per run (go run with an overlay that adds a dump function; nothing is written to /repo).
+// Trusted: the Go toolchain executes the initialiser; the tables are only written by init-reachable code.
+func (e *Engine) dumpedTable(g *ssa.Global) *Term {
+	var dir string
+	for d, sp := range e.pkgs {
+		if sp == g.Pkg {
+			dir = d
+		}
+	}
+	want := false
+	for _, n := range e.cs.Tables[dir] {
+		if n == g.Name() {
+			want = true
+		}
+	}
+	if !want {
+		return nil
+	}
+	if !e.onlyInitWrites(g) {
+		return nil
+	}
+	if e.dumped == nil {
+		e.dumped = map[string][]int64{}
+		e.runDump()
+	}
+	vals, ok := e.dumped[dir+"."+g.Name()]
+	if !ok {
+		return nil
+	}
+	at, ok := g.Type().Underlying().(*types.Pointer).Elem().Underlying().(*types.Array)
+	if !ok || !isInteger(at.Elem()) || int(at.Len()) != len(vals) {
+		return nil
+	}
+	es := sortOf(at.Elem())
+	ts := make([]*Term, len(vals))
+	for i, v := range vals {
+		ts[i] = BVLit(uint64(v), es.W)
+	}
+	return ConstTable(g.Name(), es, ts)
+}
+
+// onlyInitWrites: every function storing into g is the package initialiser or is called only from initialisers
+// (or recursively from itself), so after initialisation the table is constant.
+func (e *Engine) onlyInitWrites(g *ssa.Global) bool {
+	writers := map[*ssa.Function]bool{}
+	all := ssautil.AllFunctions(e.prog)
+	for fn := range all {
+		for _, b := range fn.Blocks {
+			for _, ins := range b.Instrs {
+				st, ok := ins.(*ssa.Store)
+				if !ok {
+					continue
+				}
+				addr := st.Addr
+				for {
+					switch a := addr.(type) {
+					case *ssa.IndexAddr:
+						addr = a.X
+						continue
+					case *ssa.FieldAddr:
+						addr = a.X
+						continue
+					}
+					break
+				}
+				if gg, ok := addr.(*ssa.Global); ok && gg == g {
+					writers[fn] = true
+				}
+			}
+		}
+	}
+	isInit := func(fn *ssa.Function) bool { return fn.Name() == "init" || strings.HasPrefix(fn.Name(), "init#") }
+	for w := range writers {
+		if isInit(w) {
+			continue
+		}
+		for fn := range all {
+			for _, b := range fn.Blocks {
+				for _, ins := range b.Instrs {
+					if call, ok := ins.(ssa.CallInstruction); ok {
+						if callee := call.Common().StaticCallee(); callee == w && fn != w && !isInit(fn) {
+							return false
+						}
+					}
+					// address-taken function values would escape this check
+					if mc, ok := ins.(*ssa.MakeClosure); ok && mc.Fn == w {
+						return false
+					}
+				}
+			}
+		}
+	}
+	return true
+}
+
+func (e *Engine) runDump() {
+	tmp, err := os.MkdirTemp("", "vcdump")
+	if err != nil {
+		return
+	}
+	defer os.RemoveAll(tmp)
+	ov := map[string]string{}
+	var mainSrc strings.Builder
+	mainSrc.WriteString("package main\n\nimport (\n\t\"encoding/json\"\n\t\"os\"\n")
+	var calls strings.Builder
+	n := 0
+	for dir, names := range e.cs.Tables {
+		sp := e.pkgs[dir]
+		if sp == nil || len(names) == 0 {
+			continue
+		}
+		n++
+		alias := fmt.Sprintf("p%d", n)
+		fmt.Fprintf(&mainSrc, "\t%s %q\n", alias, sp.Pkg.Path())
+		var src strings.Builder
+		fmt.Fprintf(&src, "package %s\n\nfunc VCDumpTables() map[string][]int64 {\n\tm := map[string][]int64{}\n", sp.Pkg.Name())
+		for _, nm := range names {
+			fmt.Fprintf(&src, "\tfor _, v := range %s { m[%q] = append(m[%q], int64(v)) }\n", nm, dir+"."+nm, dir+"."+nm)
+		}
+		src.WriteString("\treturn m\n}\n")
+		f := filepath.Join(tmp, fmt.Sprintf("dump%d.go", n))
+		os.WriteFile(f, []byte(src.String()), 0644)
+		ov[filepath.Join(e.repo, dir, "zz_vc_dump.go")] = f
+		fmt.Fprintf(&calls, "\tfor k, v := range %s.VCDumpTables() { all[k] = v }\n", alias)
+	}
+	if n == 0 {
+		return
+	}
+	mainSrc.WriteString(")\n\nfunc main() {\n\tall := map[string][]int64{}\n")
+	mainSrc.WriteString(calls.String())
+	mainSrc.WriteString("\tjson.NewEncoder(os.Stdout).Encode(all)\n}\n")
+	mf := filepath.Join(tmp, "main.go")
+	os.WriteFile(mf, []byte(mainSrc.String()), 0644)
+	ov[filepath.Join(e.repo, "zz_vcdump", "main.go")] = mf
+	data, _ := json.Marshal(map[string]map[string]string{"Replace": ov})
+	ovf := filepath.Join(tmp, "overlay.json")
+	os.WriteFile(ovf, data, 0644)
+	cmd := exec.Command("go", "run", "-overlay", ovf, "./zz_vcdump")
+	cmd.Dir = e.repo
+	cmd.Env = append(os.Environ(), "GOFLAGS=-mod=readonly", "GOPROXY=off", "GOSUMDB=off", "GOTOOLCHAIN=local")
+	out, err := cmd.Output()
+	if err != nil {
+		fmt.Fprintf(os.Stderr, "table dump failed: %v\n", err)
+		return
+	}
+	json.Unmarshal(out, &e.dumped)
 }
 
 // literalTable: a package-level array variable initialised by a composite literal of constants
